@@ -11,7 +11,7 @@
 #define NA ((int)sizeof(SIG) - 1)
 static int gpreg(int k) { return k == 0 ? RDI : k == 1 ? RSI : k == 2 ? RDX : k == 3 ? RCX : k == 4 ? R8 : R9; }
 SpecArg SA[10]; SpecAbi ST; uint64_t AV[10]; uint64_t SB[10][3]; int sp_at_entry; uint64_t FNV;
-static Type TSp, TSq, TSr, TSs, TSt, TSu, TSm; static Member Mb[16];
+static Type TSp, TSq, TSr, TSs, TSt, TSu, TSm, TSn; static Member Mb[16]; static Member Mn[5];
 static Type *mk(Type *t, int size, int n, int k0, int k1, int k2, Member *mm) {
   *t = (Type){TY_STRUCT, size, 8};
   int ks[3] = {k0, k1, k2};
@@ -37,8 +37,8 @@ void gm_call_hook(void) {
     } else if (k == 'l') {
       OBLIGE(stack_word(SA[i].mem_off) == AV[i], "C06.2 a long double memory argument is at its 16-byte aligned psABI offset from rsp");
     } else {
-      int words = SA[i].size / 8;
-      for (int w = 0; w < 3; w++) if (w < words)
+      int words = (SA[i].size + 7) / 8;
+      for (int w = 0; w < 3; w++) if (w < words && !(k == 'n' && w == 2))
         OBLIGE(stack_word(SA[i].mem_off + 8 * w) == ((k == 'i' || k == 'd') ? AV[i] : k == 'f' ? ((stack_word(SA[i].mem_off) & ~0xffffffffUL) | (uint32_t)AV[i]) : SB[i][w]),
                "C06.2 a memory-class argument is at its psABI offset from rsp, in argument order");
     }
@@ -54,6 +54,7 @@ void harness(void) {
   Node fnn = {0}, n = {0}; static Node A[10]; Type FT = {TY_FUNC, 1, 1}; Obj fobj = {0};
   mk(&TSp, 8, 1, 0, 0, 0, &Mb[0]); mk(&TSq, 8, 1, 1, 0, 0, &Mb[1]); mk(&TSr, 16, 2, 0, 0, 0, &Mb[2]); mk(&TSs, 16, 2, 1, 1, 0, &Mb[4]);
   mk(&TSt, 16, 2, 0, 1, 0, &Mb[6]); mk(&TSu, 16, 2, 1, 0, 0, &Mb[8]); mk(&TSm, 24, 3, 0, 0, 0, &Mb[10]);
+  TSn = (Type){TY_STRUCT, 20, 4}; for (int i = 0; i < 5; i++) { Mn[i] = (Member){0}; Mn[i].ty = &CGT[TI_INT]; Mn[i].offset = 4 * i; Mn[i].align = 4; Mn[i].next = i < 4 ? &Mn[i + 1] : 0; } TSn.members = Mn;
   FT.return_ty = &CGT[TI_INT]; FT.is_variadic = 0;
   cg_node(&fnn, ND_NULL_EXPR, &CGT[TI_PTR]);
   IN(uint64_t, fnv); FNV = fnv;
@@ -63,7 +64,7 @@ void harness(void) {
   for (int i = 0; i < 10; i++) if (i < NA) {
     char k = SIG[i];
     Type *t = k == 'i' ? &CGT[TI_LONG] : k == 'd' ? &CGT[TI_DOUBLE] : k == 'f' ? &CGT[TI_FLOAT] : k == 'l' ? &CGT[TI_LDOUBLE] :
-              k == 'p' ? &TSp : k == 'q' ? &TSq : k == 'r' ? &TSr : k == 's' ? &TSs : k == 't' ? &TSt : k == 'u' ? &TSu : &TSm;
+              k == 'p' ? &TSp : k == 'q' ? &TSq : k == 'r' ? &TSr : k == 's' ? &TSs : k == 't' ? &TSt : k == 'u' ? &TSu : k == 'n' ? &TSn : &TSm;
     A[i] = (Node){0}; cg_node(&A[i], ND_NULL_EXPR, t); A[i].next = i + 1 < NA ? &A[i + 1] : 0;
     spec_abi_arg(&ST, k, &SA[i]);
     uint64_t v = nondet_u64_();
